@@ -2,4 +2,4 @@ From Coq Require Import ZArith NArith List Extraction ExtrOcamlBasic.
 From CyVerif Require Import Lib.CInt Model.M_Plex.
 Extraction "../ocaml/gen/m_plex.ml" ex_keep tm_new tm_add tm_add_set tm_items tm_split
   lexicon_nfa nfa_to_dfa nfa_else_ok config0 scan_tokens ref_tokens events_from scan_fuel
-  e_matches ere_of s_elems s_single eclose best_action nfa_ok chars_to_ranges ranges_cover.
+  e_matches ere_of s_elems s_single eclose best_action nfa_ok nfa_bounded chars_to_ranges ranges_cover.
